@@ -202,6 +202,51 @@ def trace_term(sc, tr):
     return t, ok_alleles
 
 
+LINK_HEADER = """From Coq Require Import ZArith List Bool Arith.
+From WH.Model Require Import UnionFind UFSpec Mec.
+From WH.Model Require PedMEC.
+From WH.Proofs Require PedMECtoMec.
+Import ListNotations.
+Fixpoint leqb {A : Type} (e : A -> A -> bool) (x y : list A) : bool :=
+  match x, y with [], [] => true | a :: x', b :: y' => e a b && leqb e x' y' | _, _ => false end.
+Definition ent_eqb (x y : nat * bool * nat) : bool :=
+  match x, y with (c, a, w), (c', a', w') => Nat.eqb c c' && Bool.eqb a a' && Nat.eqb w w' end.
+"""
+# the traced instance, re-written densely, is an instance of theorem C02_solver_reproduces_truth: it is well-formed,
+# its sparse view is exactly the read list the other checks use, and the haplotype pair the theorem speaks about
+# (get_alleles at the implementation's own bipartition) is the pair carried by the implementation's super reads
+LINK_FN = ("fun c => match c with (n, dense, sparse, beta, hl) => "
+           "let I := PedMECtoMec.single n dense in "
+           "PedMEC.wf I && leqb (leqb ent_eqb) (PedMECtoMec.mec_reads I) sparse && "
+           "forallb (fun ch => pair_eqb (PedMECtoMec.witness_haps I beta (fst ch)) (snd ch)) hl end")
+
+
+def link_term(sc, tr):
+    """dense PedMEC form of a traced single-sample instance, or None if the trace has no column at all"""
+    pos = tr["accessible_positions"]
+    col = {p: i for i, p in enumerate(pos)}
+    dense, sparse = [], []
+    for r in tr["reads"]:
+        ents = sorted((col[p], a, q) for p, a, q in r["variants"] if p in col)
+        if not ents:
+            return None
+        first, last = ents[0][0], ents[-1][0]
+        by = {c: (a, q) for c, a, q in ents}
+        row = [Raw(f"Some ({b(by[c][0] == 1)}, {by[c][1]})") if c in by else Raw("None") for c in range(first, last + 1)]
+        dense.append(Raw(f"PedMEC.MkRead 0 {first} {term(row)}"))
+        sparse.append([Raw(f"({c}, {b(a == 1)}, {q})") for c, a, q in ents])
+    sr = tr["superreads"][0]
+    h0 = {p: a for p, a, _ in sr[0]}
+    h1 = {p: a for p, a, _ in sr[1]}
+    covered = set()
+    for r in tr["reads"]:
+        covered.update(col[p] for p, _, _ in r["variants"] if p in col)
+    hl = [Raw(f"({col[p]}, {pair((h0[p], h1[p]))})") for p in pos
+          if col[p] in covered and h0.get(p) in (0, 1) and h1.get(p) in (0, 1)]
+    beta = [Raw("true" if x else "false") for x in tr["partitioning"]]
+    return "(" + ", ".join([str(len(pos)), term(dense), term(sparse), term(beta), term(hl)]) + ")", len(hl)
+
+
 TRACE_FN = ("fun c => match c with (reads, origin, beta, hl, tl, cols, cst) => "
             "forallb (fun r => forallb (fun e => match e with (_, _, w) => Nat.ltb 0 w end) r) reads && "
             "error_free (haps_of tl) origin reads && Nat.eqb (cost (haps_of hl) beta reads) 0 && Nat.eqb cst 0 "
@@ -211,6 +256,7 @@ TRACE_FN = ("fun c => match c with (reads, origin, beta, hl, tl, cols, cst) => "
 def evaluate(ctx, batch):
     """batch: list of dict(sc, reads, opts, rc, err, traces, wd). Records outcomes."""
     l1_cases, l1_meta, l2_cases, l2_meta = [], [], [], []
+    link_cases, link_meta = [], []
     for item in batch:
         sc, opts = item["sc"], item["opts"]
         key = json.dumps([sc.to_json(), opts, [(r.get("bam", 0), r["name"], r["start"], r["hap"]) for r in item["reads"]]], sort_keys=True)
@@ -251,6 +297,13 @@ def evaluate(ctx, batch):
             ctx.tally("traced_reads", len(tr["reads"]))
             l2_cases.append(t)
             l2_meta.append((replay, tr["chromosome"], tr["family"][0], ok))
+            lt = link_term(sc, tr)
+            if lt is not None:
+                lt, ncmp = lt
+                ctx.tally("solver_theorem_columns_compared", ncmp)
+                link_cases.append(lt)
+                link_meta.append((replay, tr["chromosome"], tr["family"][0]))
+                ctx.tally("instances_of_solver_theorem")
     if l1_cases:
         failing, errors = eval_checks("C02vcf", HEADER, {"L1": "sets_match_truth"}, l1_cases, shard=200)
         if errors:
@@ -270,6 +323,18 @@ def evaluate(ctx, batch):
             ctx.l2_disagreement("traced solver instance: error-free reads / zero-cost witness / truth up to component flip",
                                 [{"chromosome": l2_meta[i][1], "sample": l2_meta[i][2], "opts": l2_meta[i][0]["opts"]}
                                  for i in failing["L2"]])
+
+
+    if link_cases:
+        failing, errors = eval_checks("C02link", LINK_HEADER, {"LINK": LINK_FN}, link_cases, shard=100)
+        if errors:
+            raise RuntimeError("coq evaluation failed: " + errors[0][1])
+        if failing["LINK"]:
+            ctx.disagreements_checked += len(failing["LINK"])
+            ctx.l2_disagreement("traced solver instance is not an instance of C02_solver_reproduces_truth (dense form not "
+                                "well-formed, sparse view differs, or super reads differ from get_alleles at the returned bipartition)",
+                                [{"chromosome": link_meta[i][1], "sample": link_meta[i][2], "opts": link_meta[i][0]["opts"]}
+                                 for i in failing["LINK"]])
 
 
 def do_runs(ctx, specs):
